@@ -456,7 +456,7 @@ class Verifier:
                     ex = outcome
                     res.raise_paths += 1
                     allowed = exc_spec.get(ex.cls)
-                    ln = getattr(ex.node, "lineno", 0)
+                    ln = getattr(ex, "where", None) or getattr(ex.node, "lineno", 0)
                     if allowed is None:
                         m.check("%s/no-raise[%s@%s]" % (label, ex.cls, ln), False, "no-raise", {"exc": ex.cls, "line": ln, "msg": ex.msg})
                     elif allowed is True:
@@ -465,7 +465,8 @@ class Verifier:
                         fn = self.registry.contract_func(ccls, allowed)
                         m.in_spec += 1
                         try:
-                            r = m.call_function(fn, [old], {}, None)
+                            nargs = len(fn.node.args.args)
+                            r = m.call_function(fn, [old, s][:nargs] if nargs >= 2 else [old], {}, None)
                         finally:
                             m.in_spec -= 1
                         m.check_clauses("%s/raises[%s@%s]" % (label, ex.cls, ln), r, "raises", {"exc": ex.cls, "line": ln})
